@@ -250,7 +250,11 @@ impl MachineState {
             (HeapCellValueTag::Cons, ptr) => {
                 match ptr.get_tag() {
                     ArenaHeaderTag::Rational | ArenaHeaderTag::Integer => {
-                        c
+                        // arena-allocated numbers are keyed by address, not by value,
+                        // in the constant index: an equal number built elsewhere would
+                        // miss its clauses. Try every clause, as for a variable; head
+                        // unification compares the numbers by value.
+                        v
                     }
                     _ => {
                         IndexingCodePtr::Fail
